@@ -16,6 +16,7 @@ import (
 	"github.com/Trendyol/go-dcp/couchbase"
 	"github.com/Trendyol/go-dcp/membership"
 	"github.com/Trendyol/go-dcp/metric"
+	"github.com/Trendyol/go-dcp/metadata"
 	"github.com/Trendyol/go-dcp/models"
 	"github.com/Trendyol/go-dcp/stream"
 	"github.com/Trendyol/go-dcp/tracing"
@@ -308,6 +309,7 @@ type SDriver struct {
 	Cons          *fakes.Consumer
 	Disc          *fakes.Discovery
 	RealDisc      stream.VBucketDiscovery // when set, the stream is built on this discovery instead of the fake
+	RealMeta      metadata.Metadata       // when set, the stream is built on this metadata backend instead of the fake store
 	Hand          *fakes.Handler
 	Stream        stream.Stream
 	stopCh        chan struct{}
@@ -359,7 +361,11 @@ func (d *SDriver) fresh() {
 	if d.RealDisc != nil {
 		disc = d.RealDisc
 	}
-	d.Stream = stream.NewStream(d.Client, d.Store, cfg, ver, &couchbase.BucketInfo{}, disc, d.Cons, d.collections(),
+	var meta metadata.Metadata = d.Store
+	if d.RealMeta != nil {
+		meta = d.RealMeta
+	}
+	d.Stream = stream.NewStream(d.Client, meta, cfg, ver, &couchbase.BucketInfo{}, disc, d.Cons, d.collections(),
 		d.stopCh, d.Hand, tracing.NewTracerComponent())
 }
 
